@@ -34,7 +34,8 @@ class Path:
 class Engine:
     current = None
 
-    def __init__(self, rlimit=8_000_000, max_paths=4000, timeout_ms=8000):
+    def __init__(self, rlimit=8_000_000, max_paths=4000, timeout_ms=8000, cache=None):
+        self.cache = cache          # optional dict shared by engines of one process: (path condition, condition) -> verdict
         self.s = z3.Solver()
         self.s.set("rlimit", rlimit)
         self.s.set("timeout", timeout_ms)   # backstop only: an expired budget is `unknown` = inconclusive, never a pass
@@ -59,6 +60,14 @@ class Engine:
         self.stats[str(r)] = self.stats.get(str(r), 0) + 1
         return str(r)
 
+    def _cached_check(self, c):
+        if self.cache is None:
+            return self.check(c)
+        key = (tuple(x.sexpr() for x in self.pc), c.sexpr())
+        if key not in self.cache:
+            self.cache[key] = self.check(c)
+        return self.cache[key]
+
     def assume(self, cond):
         """add a precondition to the current path (e.g. validity domain)"""
         self.pc.append(cond)
@@ -82,13 +91,13 @@ class Engine:
         if i < len(self.prefix):
             d = self.prefix[i]
         else:
-            rt = self.check(c)
+            rt = self._cached_check(c)
             if rt == "unknown":
                 raise Abort("solver unknown on branch condition")
             if rt == "unsat":
                 d = False
             else:
-                rf = self.check(z3.Not(c))
+                rf = self._cached_check(z3.Not(c))
                 if rf == "unknown":
                     raise Abort("solver unknown on branch condition")
                 if rf == "unsat":
